@@ -10,6 +10,9 @@
 //      iterator serves with 1 thread, batch = n, no cache; the parameter vector; the per-sample loss values / gradients
 //      of the library's loss at outputs computed here with plain loops; and, per configuration, the pool size and the
 //      worker that executed each chunk of the objective's loop (observed through the pool hook H1: the k-th `pop` is chunk k).
+//      … then `raw <eps> <hi> <lo> <enF> <enT> <RX> <RT>`: epsilon2 / numeric_limits max / lowest, the per-column enable masks
+//      (input column -> feature is not single/multi-label; target is continuous), and the RAW (unscaled, NaN = missing)
+//      flattened inputs / targets of the samples as `dataset_t::flatten` / `dataset_t::targets` return them.
 // res: ok V {hash fx0 fx ngrad g…}×V with hash = FNV-like hash of the inputs/targets served to this configuration,
 //      fx0 = vgrad(x) (value only), fx / g = vgrad(x, gx).
 #include "common.h"
@@ -18,6 +21,7 @@
 #include <thread>
 #include <limits>
 #include <map>
+#include <mutex>
 #include <memory>
 #include <nano/core/parallel.h>
 #include <nano/dataset.h>
@@ -437,6 +441,487 @@ scaling_type to_scaling(const int64_t m)
     return static_cast<scaling_type>(m);
 }
 
+// ---- the RAW (unscaled) data of the samples and the enable masks of make_flatten_stats / make_targets_stats -------
+struct rawdata_t
+{
+    tensor2d_t           RX;  // n x columns (0 columns when not wanted)
+    tensor2d_t           RT;  // n x tsize
+    std::vector<int64_t> enF; // per input column
+    std::vector<int64_t> enT; // per target column
+};
+
+rawdata_t make_raw(const dataset_t& dataset, const indices_t& samples, const bool with_inputs)
+{
+    rawdata_t  raw;
+    const auto n     = samples.size();
+    const auto tsize = ::nano::size(dataset.target_dims());
+    raw.RX.resize(n, with_inputs ? dataset.columns() : tensor_size_t{0});
+    raw.RT.resize(n, tsize);
+    if (with_inputs)
+    {
+        tensor2d_t buffer;
+        raw.RX = dataset.flatten(samples, buffer);
+        for (tensor_size_t column = 0; column < dataset.columns(); ++column)
+        {
+            const auto feature = dataset.feature(dataset.column2feature(column));
+            raw.enF.push_back((feature.is_sclass() || feature.is_mclass()) ? 0 : 1);
+        }
+    }
+    {
+        tensor4d_t buffer;
+        const auto values = dataset.targets(samples, buffer);
+        raw.RT            = values.reshape(n, tsize);
+        const auto target = dataset.target();
+        raw.enT.assign(static_cast<size_t>(tsize), (target.is_sclass() || target.is_mclass()) ? 0 : 1);
+    }
+    return raw;
+}
+
+void put_ints(std::string& s, const std::vector<int64_t>& v)
+{
+    s += ' ' + std::to_string(v.size());
+    for (const auto x : v)
+    {
+        s += ' ' + std::to_string(x);
+    }
+}
+
+void put_raw(std::string& aug, const rawdata_t& raw)
+{
+    aug += " raw " + vh::f2h(epsilon2<scalar_t>()) + ' ' + vh::f2h(std::numeric_limits<scalar_t>::max()) + ' ' +
+           vh::f2h(std::numeric_limits<scalar_t>::lowest());
+    put_ints(aug, raw.enF);
+    put_ints(aug, raw.enT);
+    put_tensor(aug, raw.RX);
+    put_tensor(aug, raw.RT);
+}
+
+void put_stats(out_t& out, const scalar_stats_t& st)
+{
+    out << static_cast<long long>(st.m_samples.size());
+    for (tensor_size_t i = 0; i < st.m_samples.size(); ++i)
+    {
+        out << static_cast<long long>(st.m_samples(i)) << st.m_min(i) << st.m_max(i) << st.m_mean(i) << st.m_stdev(i)
+            << st.m_div_range(i) << st.m_mul_range(i) << st.m_div_stdev(i) << st.m_mul_stdev(i);
+    }
+}
+
+// ---- `iter hist <seed> <N> <feats> <tkind> <tdim> <miss%> <a> <b> <smode> <threads> <sbF> <sbT> <K> {step}×K`:
+//      a history of configuration calls and loops on ONE real flatten_iterator_t. Steps: `B <batch>`, `S <mode>`,
+//      `CF <max_bytes>` (cache_flatten), `CT <max_bytes>` (cache_targets), `L` (inputs+targets loop), `LF` (inputs only),
+//      `LT` (targets only).
+// aug: op | <workers> raw … {<asg>}×K: per step the worker that executed each chunk of its map() (empty when no map ran).
+// res: ok <stats of the iterator: flatten, targets> <make_flatten_stats(…, sbF)> <make_targets_stats(…, sbT)>
+//      then per step: B/S -> nothing; CF/CT -> `c <0|1>`; loops -> `l <nchunks> {b e}… <mincount> <maxcount> <X> <T>` with
+//      X / T assembled by position from the blocks handed to the callback (NaN where nothing was served), and the minimum /
+//      maximum number of times a position was served.
+std::string run_select(toks_t& toks, std::string& aug);
+
+std::string run_iter(toks_t& toks, std::string& aug)
+{
+    const auto sub = toks.s();
+    if (sub == "select")
+    {
+        return run_select(toks, aug);
+    }
+    if (sub != "hist")
+    {
+        throw bad_op("iter kind");
+    }
+    op_t op;
+    op.kind = "linear";
+    op.seed = static_cast<uint64_t>(std::stoull(toks.s()));
+    op.N    = toks.i64();
+    {
+        const auto v = toks.ints();
+        if (v.size() % 2 != 0)
+        {
+            throw bad_op("feats");
+        }
+        for (size_t i = 0; i < v.size(); i += 2)
+        {
+            if (v[i] < 0 || v[i] > 4 || v[i + 1] < 1 || v[i + 1] > 8 || (v[i] <= 1 && v[i + 1] < 2))
+            {
+                throw bad_op("feature");
+            }
+            op.feats.emplace_back(v[i], v[i + 1]);
+        }
+    }
+    const auto tk = toks.s();
+    if (tk != "R" && tk != "S" && tk != "M")
+    {
+        throw bad_op("tkind");
+    }
+    op.tkind           = tk[0];
+    op.tdim            = toks.i64();
+    op.miss            = toks.i64();
+    op.a               = toks.i64();
+    op.b               = toks.i64();
+    op.smode           = toks.i64();
+    const auto threads = toks.i64();
+    const auto sbF     = toks.i64();
+    const auto sbT     = toks.i64();
+    const auto K       = toks.i64();
+    if (op.N < 1 || op.N > 5000 || op.feats.empty() || op.feats.size() > 16 || op.tdim < 1 || op.tdim > 8 ||
+        (op.tkind != 'R' && op.tdim < 2) || op.miss < 0 || op.miss > 100 || op.a < 0 || op.a >= op.b || op.b > op.N ||
+        op.smode < 0 || op.smode > 1 || threads < 1 || threads > 64 || sbF < 1 || sbT < 1 || K < 0 || K > 64)
+    {
+        throw bad_op("arguments");
+    }
+    struct step_t
+    {
+        std::string kind;
+        int64_t     arg{0};
+    };
+    std::vector<step_t> steps;
+    for (int64_t k = 0; k < K; ++k)
+    {
+        step_t st;
+        st.kind = toks.s();
+        if (st.kind == "B" || st.kind == "S" || st.kind == "CF" || st.kind == "CT")
+        {
+            st.arg = toks.i64();
+            if ((st.kind == "B" && st.arg < 1) || (st.kind == "S" && (st.arg < 0 || st.arg > 3)))
+            {
+                throw bad_op("step argument");
+            }
+        }
+        else if (st.kind != "L" && st.kind != "LF" && st.kind != "LT")
+        {
+            throw bad_op("step");
+        }
+        steps.push_back(st);
+    }
+    if (!toks.done())
+    {
+        throw bad_op("trailing tokens");
+    }
+
+    static const bool hooked = []
+    {
+        nano::verif::pool_hook().store(&pool_observer);
+        return true;
+    }();
+    (void)hooked;
+
+    auto        world   = world_t{op};
+    const auto  samples = make_samples(op);
+    const auto  n       = samples.size();
+    const auto& dataset = world.dataset(threads);
+    const auto  tdims   = dataset.target_dims();
+    const auto  tsize   = ::nano::size(tdims);
+    const auto  isize   = dataset.columns();
+
+    aug += " | " + std::to_string(dataset.concurrency());
+    put_raw(aug, make_raw(dataset, samples, true));
+
+    auto it = flatten_iterator_t{dataset, samples};
+
+    out_t out;
+    out << "ok";
+    put_stats(out, it.flatten_stats());
+    put_stats(out, it.targets_stats());
+    put_stats(out, scalar_stats_t::make_flatten_stats(dataset, samples, sbF));
+    put_stats(out, scalar_stats_t::make_targets_stats(dataset, samples, sbT));
+
+    const auto nan = std::numeric_limits<double>::quiet_NaN();
+    for (const auto& st : steps)
+    {
+        if (st.kind == "B")
+        {
+            it.batch(st.arg);
+            put_ints(aug, {});
+        }
+        else if (st.kind == "S")
+        {
+            it.scaling(to_scaling(st.arg));
+            put_ints(aug, {});
+        }
+        else if (st.kind == "CF" || st.kind == "CT")
+        {
+            const auto cached = record([&] { return st.kind == "CF" ? it.cache_flatten(st.arg) : it.cache_targets(st.arg); });
+            std::vector<int64_t> asg;
+            if (cached)
+            {
+                asg = g_pops;
+                if (asg.empty())
+                {
+                    asg.assign(static_cast<size_t>((n + it.batch() - 1) / it.batch()), 0); // sequential path of map()
+                }
+            }
+            put_ints(aug, asg);
+            out << "c" << (cached ? 1 : 0);
+        }
+        else
+        {
+            tensor2d_t sX(n, st.kind == "LT" ? tensor_size_t{0} : isize);
+            tensor2d_t sT(n, st.kind == "LF" ? tensor_size_t{0} : tsize);
+            sX.full(nan);
+            sT.full(nan);
+            std::vector<std::atomic<int>> counts(static_cast<size_t>(n));
+            std::vector<std::atomic<int64_t>> ends(static_cast<size_t>(n)), tnums(static_cast<size_t>(n));
+            for (tensor_size_t i = 0; i < n; ++i)
+            {
+                counts[static_cast<size_t>(i)].store(0);
+                ends[static_cast<size_t>(i)].store(-1);
+                tnums[static_cast<size_t>(i)].store(-1);
+            }
+            std::atomic<int> malformed{0};
+            const auto       note = [&](const tensor_range_t range, const size_t tnum, const tensor_size_t rows)
+            {
+                if (range.begin() < 0 || range.end() > n || range.begin() >= range.end() || rows != range.size())
+                {
+                    malformed.fetch_add(1);
+                    return false;
+                }
+                ends[static_cast<size_t>(range.begin())].store(range.end());
+                tnums[static_cast<size_t>(range.begin())].store(static_cast<int64_t>(tnum));
+                for (auto i = range.begin(); i < range.end(); ++i)
+                {
+                    counts[static_cast<size_t>(i)].fetch_add(1);
+                }
+                return true;
+            };
+            if (st.kind == "L")
+            {
+                it.loop(
+                    [&](tensor_range_t range, size_t tnum, tensor2d_cmap_t inputs, tensor4d_cmap_t targets)
+                    {
+                        if (note(range, tnum, inputs.size<0>()) && targets.size<0>() == range.size())
+                        {
+                            sX.slice(range) = inputs;
+                            sT.slice(range) = targets.reshape(range.size(), -1);
+                        }
+                    });
+            }
+            else if (st.kind == "LF")
+            {
+                it.loop(
+                    [&](tensor_range_t range, size_t tnum, tensor2d_cmap_t inputs)
+                    {
+                        if (note(range, tnum, inputs.size<0>()))
+                        {
+                            sX.slice(range) = inputs;
+                        }
+                    });
+            }
+            else
+            {
+                static_cast<const targets_iterator_t&>(it).loop(
+                    [&](tensor_range_t range, size_t tnum, tensor4d_cmap_t targets)
+                    {
+                        if (note(range, tnum, targets.size<0>()))
+                        {
+                            sT.slice(range) = targets.reshape(range.size(), -1);
+                        }
+                    });
+            }
+            if (malformed.load() != 0)
+            {
+                throw bad_op("malformed range handed to the callback");
+            }
+            std::vector<int64_t> asg, bounds;
+            int                  cmin = n > 0 ? std::numeric_limits<int>::max() : 0, cmax = 0;
+            for (tensor_size_t i = 0; i < n; ++i)
+            {
+                const auto c = counts[static_cast<size_t>(i)].load();
+                cmin         = std::min(cmin, c);
+                cmax         = std::max(cmax, c);
+                if (ends[static_cast<size_t>(i)].load() >= 0)
+                {
+                    bounds.push_back(i);
+                    bounds.push_back(ends[static_cast<size_t>(i)].load());
+                    asg.push_back(tnums[static_cast<size_t>(i)].load());
+                }
+            }
+            put_ints(aug, asg);
+            out << "l" << static_cast<long long>(asg.size());
+            for (const auto v : bounds)
+            {
+                out << static_cast<long long>(v);
+            }
+            out << cmin << cmax;
+            out << static_cast<long long>(sX.size());
+            for (tensor_size_t i = 0; i < sX.size(); ++i)
+            {
+                out << sX(i);
+            }
+            out << static_cast<long long>(sT.size());
+            for (tensor_size_t i = 0; i < sT.size(); ++i)
+            {
+                out << sT(i);
+            }
+        }
+    }
+    return out.str();
+}
+
+// ---- `iter select <seed> <N> <feats> <tkind> <tdim> <miss%> <a> <b> <smode> <threads> <kind 0..3> <mode>`: select_iterator_t.
+//      kind: 0 single-label, 1 multi-label, 2 scalar, 3 structured callbacks; mode: `A` (all the features of the kind),
+//      `L <n> <f>…` (the given feature list), `O <f>` (one feature, no pool).
+// aug: op | <workers> <kinds of the dataset's features> <asg>: the worker that popped each chunk of the map().
+// res: ok <ncalls> <bad tnum> {<ifeature> <#calls> <#calls whose values equal a direct dataset.select>}… sorted by feature
+template <class tmap, class tother>
+bool same_values(const tmap& a, const tother& b)
+{
+    if (a.size() != b.size())
+    {
+        return false;
+    }
+    for (tensor_size_t i = 0; i < a.size(); ++i)
+    {
+        const auto x = a(i);
+        const auto y = b(i);
+        if (!(x == y) && !(x != x && y != y))
+        {
+            return false;
+        }
+    }
+    return true;
+}
+
+template <class tbuffer, class tcmap, class tcallback>
+std::string run_select_kind(const dataset_t& dataset, const indices_t& samples, const std::string& mode,
+                            const indices_t& features, const tensor_size_t one, std::string& aug)
+{
+    const auto iterator = select_iterator_t{dataset};
+
+    std::mutex                                           mutex;
+    std::map<tensor_size_t, std::pair<int64_t, int64_t>> calls;
+    int64_t                                              ncalls = 0, badtnum = 0;
+
+    const tcallback callback = [&](const tensor_size_t ifeature, const size_t tnum, tcmap values)
+    {
+        tbuffer    buffer;
+        const auto direct = dataset.select(samples, ifeature, buffer);
+        const auto equal  = same_values(values, direct);
+
+        const std::scoped_lock lock(mutex);
+        ++ncalls;
+        badtnum += (tnum < iterator.concurrency()) ? 0 : 1;
+        auto& entry = calls[ifeature];
+        entry.first += 1;
+        entry.second += equal ? 1 : 0;
+    };
+
+    tensor_size_t nfeatures = 0;
+    record(
+        [&]
+        {
+            if (mode == "A")
+            {
+                iterator.loop(samples, callback);
+            }
+            else if (mode == "L")
+            {
+                iterator.loop(samples, indices_cmap_t{features}, callback);
+            }
+            else
+            {
+                iterator.loop(samples, one, callback);
+            }
+            return 0;
+        });
+    std::vector<int64_t> kinds;
+    for (tensor_size_t i = 0; i < dataset.features(); ++i)
+    {
+        const auto feature = dataset.feature(i);
+        kinds.push_back(feature.is_sclass() ? 0 : feature.is_mclass() ? 1 : feature.is_scalar() ? 2 : 3);
+    }
+    (void)nfeatures;
+    aug += " | " + std::to_string(dataset.concurrency());
+    put_ints(aug, kinds);
+    put_ints(aug, g_pops); // empty on the sequential path of map(): every chunk by worker 0
+
+    out_t out;
+    out << "ok" << static_cast<long long>(ncalls) << static_cast<long long>(badtnum);
+    for (const auto& [ifeature, entry] : calls)
+    {
+        out << static_cast<long long>(ifeature) << static_cast<long long>(entry.first) << static_cast<long long>(entry.second);
+    }
+    return out.str();
+}
+
+std::string run_select(toks_t& toks, std::string& aug)
+{
+    op_t op;
+    op.kind = "linear";
+    op.seed = static_cast<uint64_t>(std::stoull(toks.s()));
+    op.N    = toks.i64();
+    {
+        const auto v = toks.ints();
+        if (v.size() % 2 != 0)
+        {
+            throw bad_op("feats");
+        }
+        for (size_t i = 0; i < v.size(); i += 2)
+        {
+            if (v[i] < 0 || v[i] > 4 || v[i + 1] < 1 || v[i + 1] > 8 || (v[i] <= 1 && v[i + 1] < 2))
+            {
+                throw bad_op("feature");
+            }
+            op.feats.emplace_back(v[i], v[i + 1]);
+        }
+    }
+    const auto tk = toks.s();
+    if (tk != "R" && tk != "S" && tk != "M")
+    {
+        throw bad_op("tkind");
+    }
+    op.tkind           = tk[0];
+    op.tdim            = toks.i64();
+    op.miss            = toks.i64();
+    op.a               = toks.i64();
+    op.b               = toks.i64();
+    op.smode           = toks.i64();
+    const auto threads = toks.i64();
+    const auto kind    = toks.i64();
+    const auto mode    = toks.s();
+    if (op.N < 1 || op.N > 1000 || op.feats.empty() || op.feats.size() > 40 || op.tdim < 1 || op.tdim > 8 ||
+        (op.tkind != 'R' && op.tdim < 2) || op.miss < 0 || op.miss > 100 || op.a < 0 || op.a >= op.b || op.b > op.N ||
+        op.smode < 0 || op.smode > 1 || threads < 1 || threads > 64 || kind < 0 || kind > 3 ||
+        (mode != "A" && mode != "L" && mode != "O"))
+    {
+        throw bad_op("arguments");
+    }
+    indices_t     features(0);
+    tensor_size_t one = 0;
+    if (mode == "L")
+    {
+        const auto v = toks.ints();
+        features.resize(static_cast<tensor_size_t>(v.size()));
+        for (size_t i = 0; i < v.size(); ++i)
+        {
+            features(static_cast<tensor_size_t>(i)) = v[i];
+        }
+    }
+    else if (mode == "O")
+    {
+        one = toks.i64();
+    }
+    if (!toks.done())
+    {
+        throw bad_op("trailing tokens");
+    }
+    static const bool hooked = []
+    {
+        nano::verif::pool_hook().store(&pool_observer);
+        return true;
+    }();
+    (void)hooked;
+
+    auto        world   = world_t{op};
+    const auto  samples = make_samples(op);
+    const auto& dataset = world.dataset(threads);
+    switch (kind)
+    {
+    case 0: return run_select_kind<sclass_mem_t, sclass_cmap_t, sclass_callback_t>(dataset, samples, mode, features, one, aug);
+    case 1: return run_select_kind<mclass_mem_t, mclass_cmap_t, mclass_callback_t>(dataset, samples, mode, features, one, aug);
+    case 2: return run_select_kind<scalar_mem_t, scalar_cmap_t, scalar_callback_t>(dataset, samples, mode, features, one, aug);
+    default: return run_select_kind<struct_mem_t, struct_cmap_t, struct_callback_t>(dataset, samples, mode, features, one, aug);
+    }
+}
+
 std::string run(toks_t& toks, std::string& aug)
 {
     const auto op = read_op(toks);
@@ -679,6 +1164,7 @@ std::string run(toks_t& toks, std::string& aug)
         out << std::string("h") + buf << fx0 << fx;
         out.flist(gx);
     }
+    put_raw(aug, make_raw(ds1, samples, linear));
     return out.str();
 }
 // ---- `reduce sum <samples> <W> <D> <K> {<worker> <v_1 … v_D>}*K`: nano::sum_reduce (include/nano/core/reduce.h) on W real
@@ -740,6 +1226,10 @@ std::string vh::execute(toks_t& toks, std::string& aug)
             throw bad_op("reduce kind");
         }
         return op_reduce_sum(toks);
+    }
+    if (fam == "iter")
+    {
+        return run_iter(toks, aug);
     }
     if (fam != "objective")
     {
